@@ -40,7 +40,8 @@ type BLS12PublicKey struct {
 
 // ToBytes marshals the public key to a byte slice.
 func (pub BLS12PublicKey) ToBytes() []byte {
-	return bls12.NewG1().ToCompressed(pub.p)
+	// ToCompressed normalizes its argument in place. The key is shared by concurrent verifications, so encode a copy.
+	return bls12.NewG1().ToCompressed(new(bls12.PointG1).Set(pub.p))
 }
 
 // FromBytes unmarshals the public key from a byte slice.
@@ -113,7 +114,8 @@ func (agg *BLS12AggregateSignature) ToBytes() []byte {
 	if agg == nil {
 		return nil
 	}
-	b := bls12.NewG2().ToCompressed(&agg.sig)
+	// ToCompressed normalizes its argument in place. The signature may be in use by concurrent verifications, so encode a copy.
+	b := bls12.NewG2().ToCompressed(new(bls12.PointG2).Set(&agg.sig))
 	return b
 }
 
@@ -214,8 +216,10 @@ func (bls *bls12Base) coreVerify(pubKey *BLS12PublicKey, message []byte, signatu
 		return err
 	}
 	engine := bls12.NewEngine()
-	engine.AddPairInv(&bls12.G1One, signature)
-	engine.AddPair(pubKey.p, messagePoint)
+	// AddPair normalizes the points it is given in place. Votes are verified concurrently, and the public key and the
+	// signature are shared with the other verifications, so the engine gets copies.
+	engine.AddPairInv(&bls12.G1One, new(bls12.PointG2).Set(signature))
+	engine.AddPair(new(bls12.PointG1).Set(pubKey.p), messagePoint)
 	if !engine.Result().IsOne() {
 		return fmt.Errorf("bls12: failed to verify message")
 	}
@@ -290,10 +294,11 @@ func (bls *bls12Base) coreAggregateVerify(publicKeys []*BLS12PublicKey, messages
 		if err != nil {
 			return err
 		}
-		engine.AddPair(publicKeys[i].p, q)
+		// copies, see coreVerify
+		engine.AddPair(new(bls12.PointG1).Set(publicKeys[i].p), q)
 	}
 
-	engine.AddPairInv(&bls12.G1One, signature)
+	engine.AddPairInv(&bls12.G1One, new(bls12.PointG2).Set(signature))
 	if !engine.Result().IsOne() {
 		return fmt.Errorf("bls12: failed to verify aggregated message")
 	}
